@@ -254,8 +254,9 @@ def run(ctx):
         "the real kernels are assumed linear and (L_P, M_P)-shift covariant beyond the start-up horizon (C12); rows are assembled from impulses "
         "at different stream positions under that assumption",
         "irrational ratios and engines' rounding noise are explored by sampled end-to-end tones only",
-        "plans matching known finding F1 (a dft stage with power-of-two L not dividing block_len) receive no measurement signal: they are set aside, "
-        "counted, and up to 4 of them are probed in a child process (KNOWN-FINDING line when the misbehaviour shows)",
+        "F1 (non-linear phase + power-of-two-L dft stage with L not dividing block_len) is repaired in /repo (279ce1a) and listed as fixed: no configuration is "
+        "set aside, non-linear phase with L = 8 .. 256 post stages is measured like everything else (the set-aside / child-process probe path of "
+        "checks/_signal.py only returns if an F1 entry is listed as known again)",
         "the stop band is read as the property states it: everything at or above the CONFIGURED stop-band start up to the input Nyquist limit, "
         "also where it would not alias (stopband_begin < 1) and also when up-sampling; with stopband_begin > 1 it starts at stopband_begin",
         "known findings of the pinned tree (known_findings.d/signal.json: F-PH1, F-SG3, F-SG6) are recognised by a configuration/plan signature AND a "
